@@ -353,7 +353,7 @@ class TokenCategoryHierarchyMapper:
         """
         if parent == child:
             return True
-        return cls._is_child(parent, child, tree=cls.hierarchy)
+        return child in cls.nodes(parent)
 
     @classmethod
     def children(cls, parent: TokenCategory) -> Set[TokenCategory]:
@@ -366,7 +366,8 @@ class TokenCategoryHierarchyMapper:
         Returns:
             Set[TokenCategory]: The list of children categories of the parent category.
         """
-        return set(cls.hierarchy.get(parent, {}).keys())
+        subtree = cls._find_subtree(cls.hierarchy, parent)
+        return set(subtree.keys()) if subtree is not None else set()
 
     @classmethod
     def _nodes(cls, tree: _hierarchy_typing) -> Set[TokenCategory]:
